@@ -60,7 +60,7 @@ CONTEXT = {
 }
 # scene classes on which a leaf was seen live (first liveness scans); None = any cloudy class
 LIVE_CLASSES = {
-    ('BASE_LVL_HEIGHT_PERC',): ['asym-split', 'asym-split', 'split', 'demo-like', 'merge'],
+    ('BASE_LVL_HEIGHT_PERC',): ['asym-split', 'asym-split', 'asym-split', 'split', 'demo-like'],
     ('BASE_LVL_LOOKBACK_PERC',): ['asym-split', 'asym-split', 'split', 'demo-like', 'merge'],
     ('MAX_HOLES_OKTA8',): ['demo-like', 'multi-hit', 'single'],
     ('GROUPING_PRMS', 'dt_scale'): ['demo-like'],
@@ -79,7 +79,7 @@ LIVE_CLASSES = {
     ('EXCLUDE_FOR_BASE_HEIGHT_CALC',): ['demo-like', 'two-far', 'split'],
 }
 CLOUDY = ['split', 'merge', 'merge+split', 'demo-like', 'two-far', 'multi-hit', 'rng-sensitive',
-          'single', 'borderline', 'asym-split']
+          'single', 'borderline', 'asym-split', 'two-valued', 'high-close']
 
 
 def path_str(path):
@@ -131,6 +131,12 @@ def gen_value(rng, path, avoid=()):
         dom = [v for v in _typed_domain(get_path(packaged_defaults(), path))
                if typed_repr(v) not in avoid_r]
         return rng.choice(dom) if dom else copy.deepcopy(get_path(packaged_defaults(), path))
+    # falsy but valid values (0, 0.0, None, []) are where "x or default" fallbacks bite
+    if rng.random() < 0.3:
+        falsy = [v for v in (LEAVES[path](rng) for _ in range(12))
+                 if not v and typed_repr(v) not in avoid_r]
+        if falsy:
+            return copy.deepcopy(falsy[0])
     for _ in range(40):
         val = LEAVES[path](rng)
         if typed_repr(val) not in avoid_r:
